@@ -75,7 +75,7 @@ func c20Cases() []c20Case {
 	add := func(tasks []string, sig string) {
 		cs = append(cs, c20Case{Name: strings.Join(tasks, "+") + "/" + sig, Tasks: tasks, Sig: sig})
 	}
-	for _, sig := range []string{"TERM", "HUP", "INT"} {
+	for _, sig := range []string{"TERM", "HUP", "INT", "QUIT", "USR1"} { // "anything but SIGHUP" means terminate
 		add([]string{"run", "slow"}, sig)
 	}
 	add([]string{"fail", "slow"}, "")
@@ -107,7 +107,7 @@ func c20Scenario(c c20Case) *vsched.Scenario {
 			})
 			if c.Sig != "" {
 				x.Spawn("signal", func() {
-					sig := map[string]os.Signal{"TERM": syscall.SIGTERM, "INT": os.Interrupt, "HUP": syscall.SIGHUP}[c.Sig]
+					sig := map[string]os.Signal{"TERM": syscall.SIGTERM, "INT": os.Interrupt, "HUP": syscall.SIGHUP, "QUIT": syscall.SIGQUIT, "USR1": syscall.SIGUSR1}[c.Sig]
 					vsched.Obs("signal-sent", "%s", c.Sig)
 					vsched.Send("harness:signal", sigC, sig)
 				})
@@ -212,7 +212,7 @@ func c20Scenario(c c20Case) *vsched.Scenario {
 func TestVerifC20Sched(t *testing.T) {
 	r := ev.Begin("C20", "sched")
 	defer r.End(t)
-	r.Rule = "executions = goroutine schedules within the deviation bound of the instrumented real Server.Serve (errgroup, readiness WaitGroup, signal task, terminator, recording sdnotify) supervising 2-3 fake tasks with behaviours {runs until cancelled, slow to stop, fails while working, fails with an error wrapping context.Canceled, returns nil early, never ready} and a signal thread {none, SIGTERM, SIGINT, SIGHUP} (10 cases); oracle on the ordered log: Serve returns only after every task's Run exited, returns the first failing task's error else nil, every terminate() read after observing a signal's cancellation = (signal != SIGHUP), READY=1 at most once and only after every task started and closed Ready, never if a task never becomes ready"
+	r.Rule = "executions = goroutine schedules within the deviation bound of the instrumented real Server.Serve (errgroup, readiness WaitGroup, signal task, terminator, recording sdnotify) supervising 2-3 fake tasks with behaviours {runs until cancelled, slow to stop, fails while working, fails with an error wrapping context.Canceled, returns nil early, never ready} and a signal thread {none, SIGTERM, SIGINT, SIGHUP, SIGQUIT, SIGUSR1} (12 cases); oracle on the ordered log: Serve returns only after every task's Run exited, returns the first failing task's error else nil, every terminate() read after observing a signal's cancellation = (signal != SIGHUP), READY=1 at most once and only after every task started and closed Ready, never if a task never becomes ready"
 	name := func(c c20Case) string { return c.Name }
 	exploreCases(t, r, c20Cases(), name, c20Scenario, exploreOpts{Bound: 2})
 	if r.Thorough() && r.Replay == nil {
